@@ -12,6 +12,7 @@ from harness.common import Ck
 from translate import c04_formulas as tr
 from translate import c04_inverse as tri
 from translate import c04_rounded as trr
+from translate import c04_inplace as trp
 
 MANIFEST = dict(
     technique='Rocq proof over R (ring/field/nsatz/nra) on formulas, a dispatch table and a Gauss-Jordan row-operation '
@@ -21,7 +22,9 @@ MANIFEST = dict(
               'formulas for every rounding with |rnd t - t| <= u|t| + eta, instantiated for binary64 with Flocq; '
               'bit-exact correspondence of the extracted expression trees, of every dispatch row, of the Gauss-Jordan '
               'interpreter instantiated with IEEE binary64 (Coq primitive floats) and of the rounding model against '
-              'CPython floats; numeric oracle on the complete operand-type matrix and on composed rotations',
+              'CPython floats; census of all in-place operator methods (class bodies + expanded exec() templates) with a '
+              'decidable acceptance test; numeric oracle on the complete operand-type matrix, composed rotations, every in-place '
+              'operator / in-place rotation method and the conversion entry points; every stage under an exception / hang guard',
     text='Theorems in Props/C04.v, about the objects read out of MatrixBase.from_angle/from_pitch/from_yaw/from_roll/'
          '_mat_mul/_vec_rot/transpose/_to_angle/inverse and the @ methods on every run: from_angle is orthonormal with '
          'determinant 1 and equals roll*pitch*yaw in the row-vector convention (axes fixed, handedness at +90 degrees); '
@@ -47,7 +50,23 @@ MANIFEST = dict(
          'hypothesis, measured on sampled angles with 50-digit arithmetic); '
          'for every (operator form, left class, right class, same-object?) the dispatch table generated from '
          '__matmul__/__rmatmul__/__imatmul__ returns the specification product, a fresh result and unchanged operands '
-         '(kernel-checked table_ok = true + generic soundness theorem).  The trees, the table and the inverse program are '
+         '(kernel-checked table_ok = true + generic soundness theorem); round 4: `l @= r` on a MUTABLE receiver returns the '
+         'receiver object itself holding the specification product (so every alias sees it), on a frozen receiver a new object '
+         'with the receiver untouched (inplace_ok is part of table_ok; c04_inplace_stores_into_self), and the in-place row '
+         'denotes the same value as the pure row (c04_inplace_agrees_with_pure); x @ Angle and x @ Matrix.from_angle(Angle) '
+         'are the same computation under EVERY interpretation of the table terms, hence bit for bit in binary64 '
+         '(c04_angle_operand_same_computation, confirmed on the implementation on every run); every in-place operator method '
+         '(+= -= *= /= //= %= @=, also the exec()-generated ones) belongs to mutable classes only and every path that returns '
+         'a value returns the receiver after storing into it (census_ok, c04_inplace_census_sound); Matrix->Angle->Matrix in '
+         'binary64 outside the gimbal band is within 2e-13 of the exact rotation given sin/cos of the float Euler angles within '
+         '2e-14 of the exact ones (c04_euler_roundtrip_binary64; the hypothesis is measured against 60-digit arithmetic on every '
+         'run: about 1.5e-15); the in-place rotation methods Vec.localise / Vec.transform() / Angle.transform() / Vec.rotate, '
+         'executed symbolically (the with-block body being `m @= rot` through the real Matrix.__imatmul__), leave the pure form '
+         'v @ angles + origin / v @ rot / a @ rot / v @ Angle(p, y, r) in the receiver (methods_ok, c04_inplace_methods_sound); '
+         'copy / __deepcopy__ / freeze / thaw / _new_copy of the matrix classes are `return self` only for a frozen copy and '
+         'otherwise field-for-field new objects of the right class (copies_ok, c04_matrix_copies_sound); '
+         'c04_property composes all parts into one statement whose hypotheses are atan2_spec and the five '
+         'acceptance tests, and Props/C04Today.v proves the five tests for today\'s generated objects.  The trees, the table and the inverse program are '
          'compared bit-for-bit with the running implementation; all identities are searched numerically within '
          '1e-9*max(1,|v|).',
     note='Exact real arithmetic except for the rounding theorems of _vec_rot/_mat_mul (rounded-real model of binary64: round '
@@ -59,7 +78,11 @@ MANIFEST = dict(
          'unroller; tied by the bit-exact correspondences; the polynomial expansion of the reified pieces is re-proved by ring), '
          'libm sin/cos/atan2/sqrt, Coq primitive floats = hardware binary64.  inverse() returning on every rotation is proved in exact arithmetic only: the 1e-5 '
          'threshold is passed with the proved margins (|pivot| bounds of the final intervals), but no float error bound for '
-         'the elimination is proved.  The Cython twin _math.pyx cannot be built and is not verified.',
+         'the elimination is proved.  The conversion entry points other than the zero-argument matrix conversions (constructors '
+         'from another object, pickle, forward/left/up, from_angstr, to_matrix, every vector / angle conversion) are searched '
+         'only; Vec.rotate is modelled for round_vals=False only.  The in-place census is a path classification (what each path returns, how many stores '
+         'into the receiver precede it), not a value semantics: the values of += ... %= are compared with the pure operators by '
+         'the oracle only; @= has the full dispatch model.  The Cython twin _math.pyx cannot be built and is not verified.',
 )
 
 CONCRETE = tr.CONCRETE
@@ -68,6 +91,9 @@ DISP_IMPORTS = ['Coq.Lists.List', 'Coq.Bool.Bool', 'SV.Rot.RotDispatch', 'SV.Gen
 REIFY_IMPORTS = ['Coq.Lists.List', 'Coq.Bool.Bool', 'SV.Rot.RotReify', 'SV.Gen.RotReified_gen']
 GJ_IMPORTS = ['Coq.Lists.List', 'Coq.Bool.Bool', 'SV.Rot.RotGJ', 'SV.Gen.RotInverse_gen']
 GJT_IMPORTS = ['Coq.Lists.List', 'Coq.Bool.Bool', 'Coq.QArith.QArith', 'SV.Rot.RotGJ', 'SV.Rot.RotGJTotal', 'SV.Gen.RotInverse_gen']
+COPIES_IMPORTS = ['Coq.Lists.List', 'Coq.Bool.Bool', 'SV.Rot.RotCopies', 'SV.Gen.RotCopies_gen']
+METHOD_IMPORTS = ['Coq.Lists.List', 'Coq.Bool.Bool', 'SV.Rot.RotMethods', 'SV.Gen.RotMethods_gen']
+INPLACE_IMPORTS = ['Coq.Lists.List', 'Coq.Bool.Bool', 'SV.Rot.RotInplace', 'SV.Gen.RotInplace_gen']
 ROUND_IMPORTS = ['Coq.Lists.List', 'Coq.Bool.Bool', 'Coq.QArith.QArith', 'SV.Rot.RotRound', 'SV.Gen.RotRounded_gen']
 TOL = 1e-9
 GIMBAL = 0.001
@@ -75,6 +101,68 @@ GIMBAL = 0.001
 
 def bits(x: float) -> bytes:
     return struct.pack('<d', x)
+
+
+# =============================================================================================== robustness of the check
+# Round 4.  Every stage that calls into srctools.math runs under `guarded`: an exception nobody expected, or a call that does
+# not return (a fault can turn the loop-free float code into a loop), ends as a VIOLATION with a replay of the input that was
+# being processed - not as INTERNAL-ERROR and not as a hung check.  `_CURRENT[0]` is the replay object of the call in flight
+# (set by the functions that call the implementation).  STAGE_SECONDS is far above what a stage needs (the slowest takes
+# about 6 s quick / 40 s with thorough budgets on a loaded machine).  Once one stage has hung, the others get
+# STAGE_SECONDS_AFTER_HANG each, so that a hanging implementation costs about 10 minutes in total and not 11 x STAGE_SECONDS.
+_CURRENT: list[Any] = [None]
+STAGES = ('correspondence-formulas', 'correspondence-dispatch', 'correspondence-angle-operand', 'correspondence-inverse',
+          'correspondence-inplace-census', 'correspondence-rounding', 'correspondence-euler-float', 'search-operands',
+          'search-identities', 'search-composed', 'search-inplace', 'search-conversions')
+STAGE_SECONDS = 300
+STAGE_SECONDS_AFTER_HANG = 30
+
+
+def exc_where(e: BaseException) -> str:
+    """' raised in <function> (math.py:<line>)' for an exception that came out of srctools/math.py, else ''."""
+    import traceback
+    tb = traceback.extract_tb(e.__traceback__)
+    w = next((f'{f.name} (math.py:{f.lineno})' for f in reversed(tb) if f.filename.endswith('math.py')), None)
+    return f' raised in {w}' if w else ''
+
+
+class StageTimeout(BaseException):      # not an Exception: the `except Exception` of the oracles must not swallow it
+    pass
+
+
+def _on_alarm(signum, frame):      # noqa: ARG001
+    raise StageTimeout()
+
+
+def guarded(ck: Ck, found: dict, stage: str, fn, *args) -> bool:
+    """Run one stage.  Returns False when it was cut short (the caller then leaves the stage's obligation failed)."""
+    import signal
+    import traceback
+    _CURRENT[0] = None
+    old = signal.signal(signal.SIGALRM, _on_alarm)
+    import time
+    limit = STAGE_SECONDS_AFTER_HANG if any(k.startswith('hang:') for k in found) else STAGE_SECONDS
+    t0 = time.time()
+    signal.alarm(limit)
+    try:
+        fn(*args)
+        ck.extra.setdefault('stage_seconds', {})[stage] = round(time.time() - t0, 1)     # evidence only, never compared
+        return True
+    except StageTimeout:
+        key, what = f'hang:{stage}', f'stage {stage}: a call into srctools.math did not return within {limit} s'
+    except Exception as e:      # noqa: BLE001
+        tb = traceback.extract_tb(e.__traceback__)
+        where = next((f'{f.name} (math.py:{f.lineno})' for f in reversed(tb) if f.filename.endswith('math.py')), None)
+        key = f'exception:{stage}'
+        what = (f'stage {stage}: unexpected {type(e).__name__}: {e}' + (f' raised in {where}' if where else
+                f' raised at {tb[-1].filename.rsplit("/", 1)[-1]}:{tb[-1].lineno}' if tb else ''))
+    finally:
+        signal.alarm(0)
+        signal.signal(signal.SIGALRM, old)
+    found.setdefault(key, (what + f'; input in flight: {_CURRENT[0]!r}'[:300], _CURRENT[0] or {'kind': 'stage', 'stage': stage}))
+    ck.obligation(f'stage-completed:{stage}', False, what)
+    ck.tie_broken.append(f'stage {stage} did not complete')
+    return False
 
 
 # =============================================================================================== reference maths
@@ -282,6 +370,7 @@ def corr_formulas(ck: Ck, F: dict) -> None:
     for i in range(n):
         rng = ck.rng
         (p, y, r), acls = gen_angle(rng)
+        _CURRENT[0] = {'kind': 'identity', 'angle': (p, y, r), 'vector': (1.0, 2.0, 3.0), 'second_angle': (10.0, 20.0, 30.0), 'identity': 'any'}
         ck.hist('formula_angle_class', acls)
         cls = rng.choice([Matrix, FrozenMatrix])
         for nm, val in (('pitch', p), ('yaw', y), ('roll', r)):
@@ -340,6 +429,7 @@ def eval_term(F: dict, t: Any, L: tuple, R: tuple) -> tuple:
 
 
 def observe(form: str, lc: str, rc: str, alias: bool, vals_l: dict, vals_r: dict) -> dict:
+    _CURRENT[0] = {'kind': 'triple', 'form': form, 'l': lc, 'r': rc, 'alias': alias, 'left': vals_l, 'right': vals_r}
     L = make(lc, vals_l)
     R = L if alias else make(rc, vals_r)
     sl, sr = snapshot(L), snapshot(R)
@@ -360,7 +450,7 @@ def rand_vals(rng: random.Random) -> dict:
 def corr_dispatch(ck: Ck, F: dict, rows: list[dict]) -> None:
     """Every row of the generated dispatch table against the implementation: result or NotImplemented, class and identity
     of the result, which operands changed, and the value (term evaluated with the extracted formulas) bit for bit."""
-    reps = ck.budget(3, 40)
+    reps = ck.budget(6, 40)
     bad: list[dict] = []
     for row in rows:
         for _ in range(reps):
@@ -392,6 +482,44 @@ def corr_dispatch(ck: Ck, F: dict, rows: list[dict]) -> None:
         ck.tie_broken.append('correspondence dispatch table (symbolic executor vs implementation)')
         ck.extra['dispatch_disagreements'] = bad
 
+
+
+def corr_angle_operand(ck: Ck) -> None:
+    """c04_angle_operand_same_computation on the implementation: for every form and every left class, `x OP angle` and
+    `x OP Matrix.from_angle(angle)` give the same bits (they are the same float computation, not merely equal over the reals)."""
+    from srctools.math import FrozenMatrix, Matrix
+    reps = ck.budget(6, 80)
+    bad: list[dict] = []
+    for form in ('matmul', 'imatmul', 'rmatmul'):
+        for lc in CONCRETE:
+            for rc in ('Angle', 'FrozenAngle'):
+                for mc in (Matrix, FrozenMatrix):
+                    for _ in range(reps):
+                        vl, vr = rand_vals(ck.rng), rand_vals(ck.rng)
+                        try:
+                            L1, A = make(lc, vl), make(rc, vr)
+                            r1 = apply_form(form, L1, A)
+                            L2 = make(lc, vl)
+                            r2 = apply_form(form, L2, mc.from_angle(make(rc, vr)))
+                        except Exception:      # noqa: BLE001 - reported by the operand-matrix search with a replay
+                            continue
+                        if isinstance(r1, str) or isinstance(r2, str):
+                            # NotImplemented: only the explicitly reflected method may defer, and the theorem speaks about
+                            # rows that return a value; `unsupported` for @ / @= is the operand-matrix search's finding
+                            continue
+                        else:
+                            same = [bits(x) for x in snapshot(r1)] == [bits(x) for x in snapshot(r2)]      # value: the class is the table's business
+                        ck.count('angle_operand_bitwise_cases')
+                        if not same and len(bad) < 5:
+                            bad.append({'form': form, 'left': lc, 'angle': rc, 'matrix': mc.__name__, 'left_vals': vl, 'angle_vals': vr['A'],
+                                        'with_angle': r1 if isinstance(r1, str) else snapshot(r1),
+                                        'with_matrix': r2 if isinstance(r2, str) else snapshot(r2)})
+    ck.obligation('correspondence:angle-operand-same-computation', not bad,
+                  f'3 forms x 7 left classes x 2 angle classes x 2 matrix classes x {reps} value sets: x @ angle vs '
+                  f'x @ Matrix.from_angle(angle), bit for bit: {len(bad)}+ differences')
+    if bad:
+        ck.tie_broken.append('x @ Angle is not bit-identical to x @ Matrix.from_angle(Angle)')
+        ck.extra['angle_operand_differences'] = bad
 
 
 # =============================================================================================== inverse(): Gauss-Jordan
@@ -452,6 +580,7 @@ def gen_inverse_input(rng: random.Random) -> tuple[list[float], str]:
 def run_inverse(vals: list[float]) -> tuple[str, list[float] | None]:
     """What MatrixBase.inverse does on the raw nine values: ('ok', nine doubles) / ('noinverse', None) /
     ('zerodiv', None); anything else is returned as ('other:<exception>', None)."""
+    _CURRENT[0] = {'kind': 'inverse', 'matrix': list(vals)}
     try:
         inv = raw_matrix(vals).inverse()
     except ZeroDivisionError:
@@ -529,7 +658,7 @@ def check_triple(form: str, lc: str, rc: str, alias: bool, vl: dict, vr: dict) -
     try:
         ob = observe(form, lc, rc, alias, vl, vr)
     except Exception as e:             # noqa: BLE001 - any exception on a supported pair is a finding
-        return [('exception', f'{type(e).__name__}: {e}')]
+        return [('exception', f'{type(e).__name__}: {e}{exc_where(e)}')]
     probs: list[tuple[str, str]] = []
     if ob['kind'] == 'none':
         if form != 'rmatmul':
@@ -560,7 +689,14 @@ def check_triple(form: str, lc: str, rc: str, alias: bool, vl: dict, vr: dict) -
         probs.append(('value-mismatch', f'result differs from the specification product by {err:.3g} (tolerance {tol:.3g})'))
     if KIND.get(ob['cls']) != kl:
         probs.append(('result-kind', f'result is a {ob["cls"]}'))
-    inplace_ok = form == 'imatmul' and lc in ('Vec', 'Angle', 'Matrix') and ob['ident'] == 'L'
+    mutable_l = lc in ('Vec', 'Angle', 'Matrix')
+    inplace_ok = form == 'imatmul' and mutable_l and ob['ident'] == 'L'
+    if form == 'imatmul' and mutable_l and ob['ident'] != 'L':
+        # `x @= y` on a mutable receiver must update the object it was applied to: a caller that holds another reference to
+        # it (a list element, a loop variable, an attribute of some owner) reads the receiver, not the rebound name
+        probs.append(('not-in-place', f'the mutable receiver was not updated in place: @= returned '
+                      f'{"the right operand object" if ob["ident"] == "R" else "a new object"}, the receiver (and every other '
+                      f'reference to it) still holds {ob["L1"]} instead of the product {ob["val"]}'))
     if not inplace_ok:
         if ob['ident'] != 'fresh':
             probs.append(('result-not-fresh', f'the result is the {ob["ident"]} operand object itself'))
@@ -593,7 +729,7 @@ def shrink_vals(vals: dict, pred) -> dict:
 
 
 def search_operands(ck: Ck, found: dict) -> None:
-    reps = ck.budget(4, 60)
+    reps = ck.budget(10, 60)
     for form, lc, rc, alias in all_triples():
         for _ in range(reps):
             vl, vr = rand_vals(ck.rng), rand_vals(ck.rng)
@@ -617,6 +753,7 @@ def ident_problems(p: float, y: float, r: float, v: tuple, q: tuple) -> list[tup
     """All value identities of the property for one angle triple (p,y,r), one vector v and a second angle triple q."""
     from srctools.math import Angle, FrozenAngle, FrozenMatrix, Matrix, Vec
     out: list[tuple[str, str]] = []
+    _CURRENT[0] = {'kind': 'identity', 'angle': (p, y, r), 'vector': tuple(v), 'second_angle': tuple(q), 'identity': 'any'}
     M = Matrix.from_angle(p, y, r)
     m = mat_list(M)
     e = maxdiff(ref_mul(m, ref_T(m)), [[1, 0, 0], [0, 1, 0], [0, 0, 1]])
@@ -755,6 +892,7 @@ def composed_problem(a: tuple, b: tuple, form: str) -> tuple[str, str] | None:
     converts to an Angle and back: exactly up to rounding outside the gimbal band, within 2*horizontal length inside,
     and without an exception.  `form`: how the product is formed and converted."""
     from srctools.math import Angle, Matrix
+    _CURRENT[0] = {'kind': 'composed', 'a': a, 'b': b, 'form': form}
     try:
         if form == 'matrix':
             M = Matrix.from_angle(*a) @ Matrix.from_angle(*b)
@@ -767,7 +905,7 @@ def composed_problem(a: tuple, b: tuple, form: str) -> tuple[str, str] | None:
             ang = Angle(*a)
             ang @= Matrix.from_angle(*b)
     except Exception as e:      # noqa: BLE001 - every exception on a valid rotation is a finding
-        return 'exception', f'{form}: converting from_angle{a} @ from_angle{b} to an Angle raised {type(e).__name__}: {e}'
+        return 'exception', f'{form}: converting from_angle{a} @ from_angle{b} to an Angle raised {type(e).__name__}: {e};{exc_where(e)}'
     m = mat_list(M)
     if maxdiff(ref_mul(m, ref_T(m)), [[1, 0, 0], [0, 1, 0], [0, 0, 1]]) > TOL:
         return None         # not a rotation up to rounding: reported by the other identities
@@ -813,6 +951,274 @@ def search_composed(ck: Ck, found: dict) -> None:
         key = f'composed-roundtrip:{pr[0]}'
         if key not in found:
             found[key] = (pr[1], {'kind': 'composed', 'a': a, 'b': b, 'form': form})
+
+
+# =============================================================================================== in-place forms
+# Round 4.  "in-place and frozen variants included": every in-place operator the six classes define or inherit
+# (+= -= *= /= //= %= @=) x every receiver class x every operand class, and the in-place rotation methods (Vec.localise,
+# Vec.transform(), Angle.transform(), Vec.rotate).  Protocol: on a MUTABLE receiver the object the operator was applied to is
+# returned and holds the value the pure operator returns; on a FROZEN receiver a new object is returned and the receiver keeps
+# its bits; the right operand is never changed; whatever the pure form supports the in-place form supports.
+INPLACE_OPS = [('iadd', 'add', '+='), ('isub', 'sub', '-='), ('imul', 'mul', '*='), ('itruediv', 'truediv', '/='),
+               ('ifloordiv', 'floordiv', '//='), ('imod', 'mod', '%='), ('imatmul', 'matmul', '@=')]
+INPLACE_RECEIVERS = ['Vec', 'FrozenVec', 'Angle', 'FrozenAngle', 'Matrix', 'FrozenMatrix']
+INPLACE_OPERANDS = CONCRETE + ['float', 'int']
+
+
+def make_operand(cls: str, vals: dict) -> Any:
+    if cls == 'float':
+        return float(vals['S'])
+    if cls == 'int':
+        return int(vals['S']) or 3
+    return make(cls, vals)
+
+
+def rand_vals_s(rng: random.Random) -> dict:
+    d = rand_vals(rng)
+    d['S'] = rng.choice([2.0, -3.0, 0.5, 7.25, rng.uniform(-9, 9) or 1.0, 360.0, 1e-3])
+    return d
+
+
+def close_snap(cls: str, a: tuple, b: tuple) -> bool:
+    """Two snapshots of objects of class `cls` agree up to rounding (angles: modulo a full turn)."""
+    if len(a) != len(b):
+        return False
+    for x, y in zip(a, b):
+        if x != x and y != y:
+            continue
+        if x in (math.inf, -math.inf) or y in (math.inf, -math.inf):
+            if x != y:
+                return False
+            continue
+        d = abs(x - y)
+        if KIND[cls] == 'A':
+            d = min(d, abs(360.0 - d))
+        if not d <= TOL * max(1.0, abs(x), abs(y)):
+            return False
+    return True
+
+
+def inplace_op_problems(iname: str, pname: str, lc: str, rc: str, vl: dict, vr: dict) -> list[tuple[str, str]] | None:
+    import operator
+    import warnings
+    _CURRENT[0] = {'kind': 'inplace-op', 'iname': iname, 'pname': pname, 'l': lc, 'r': rc, 'left': vl, 'right': vr}
+    with warnings.catch_warnings():
+        warnings.simplefilter('ignore')
+        x0, y0 = make(lc, vl), make_operand(rc, vr)
+        try:
+            pure = getattr(operator, pname)(x0, y0)
+        except (TypeError, ZeroDivisionError, ValueError, OverflowError):
+            return None                 # the pure form does not support this pair: nothing is required of the in-place one
+        if type(pure).__name__ != lc:
+            return None                 # e.g. a future Vec * Vec -> float: not an in-place candidate
+        x, y = make(lc, vl), make_operand(rc, vr)
+        alias = [x]                     # the other reference
+        sx, sy = snapshot(x), (snapshot(y) if rc in KIND else y)
+        try:
+            res = getattr(operator, iname)(x, y)
+        except Exception as e:          # noqa: BLE001
+            return [('exception', f'x {iname} y raised {type(e).__name__}: {e} although the pure operator returns {pure!r};{exc_where(e)}')]
+    probs: list[tuple[str, str]] = []
+    mutable_l = lc in ('Vec', 'Angle', 'Matrix')
+    if type(res).__name__ != lc:
+        return [('result-class', f'result is a {type(res).__name__}')]
+    if not close_snap(lc, snapshot(res), snapshot(pure)):
+        probs.append(('differs-from-pure', f'the in-place form returns {snapshot(res)} but the pure operator {snapshot(pure)}'))
+    if mutable_l:
+        if res is not alias[0]:
+            probs.append(('not-in-place', f'mutable receiver not updated: a new object was returned and the receiver still '
+                          f'holds {snapshot(alias[0])}'))
+        elif not close_snap(lc, snapshot(alias[0]), snapshot(pure)):
+            probs.append(('receiver-value', f'the receiver holds {snapshot(alias[0])} afterwards, the pure operator returns {snapshot(pure)}'))
+    else:
+        if res is alias[0]:
+            probs.append(('frozen-receiver-returned', 'the frozen receiver itself was returned'))
+        if [bits(v) for v in snapshot(alias[0])] != [bits(v) for v in sx]:
+            probs.append(('frozen-receiver-mutated', f'the frozen receiver changed from {sx} to {snapshot(alias[0])}'))
+    if rc in KIND and y is not x and [bits(v) for v in snapshot(y)] != [bits(v) for v in sy]:
+        probs.append(('operand-mutated', f'the right operand changed from {sy} to {snapshot(y)}'))
+    return probs
+
+
+def inplace_method_problems(name: str, rc: str, vl: dict, vr: dict) -> list[tuple[str, str]]:
+    """The in-place rotation methods against the pure operators: Vec.localise(origin, angles) is `v @ angles + origin`,
+    `with v.transform() as m: m @= A` is `v @ A`, `with a.transform() as m: m @= A` is `a @ A`, Vec.rotate(p, y, r,
+    round_vals=False) is `v @ Angle(p, y, r)`; each updates the receiver object and nothing else."""
+    import warnings
+    from srctools.math import Angle, Vec
+    probs: list[tuple[str, str]] = []
+    _CURRENT[0] = {'kind': 'inplace-method', 'name': name, 'r': rc, 'left': vl, 'right': vr}
+    R = None if rc == 'None' else make(rc, vr)
+    sR = None if R is None else snapshot(R)
+    rm = [[1.0, 0, 0], [0, 1.0, 0], [0, 0, 1.0]] if R is None else as_ref_mat((rc, sR))
+    try:
+        with warnings.catch_warnings():
+            warnings.simplefilter('ignore')
+            if name == 'Angle.transform':
+                a = Angle(*vl['A'])
+                keep = a
+                lm = ref_from_angle(*snapshot(a))
+                with a.transform() as m:
+                    m @= R
+                want = ref_mul(lm, rm)
+                h = horiz_of(want)
+                tol = TOL if h > GIMBAL + 1e-9 else 2 * h + TOL + (2 * GIMBAL if abs(h - GIMBAL) <= 1e-9 else 0)
+                e = maxdiff(ref_from_angle(*snapshot(keep)), want)
+                if not e <= tol:
+                    probs.append(('value', f'after `with a.transform() as m: m @= r` the angle differs from a @ r by {e:.3g}'))
+            else:
+                v = Vec(*vl['V'])
+                keep = v
+                scale = max(1.0, vmag(vl['V']))
+                want = ref_rot(list(vl['V']), rm)
+                ret = None
+                if name == 'Vec.localise':
+                    org = vr['V']
+                    scale = max(scale, vmag(org))
+                    want = [w + o for w, o in zip(want, org)]
+                    ret = v.localise(Vec(*org), R)
+                elif name == 'Vec.transform':
+                    with v.transform() as m:
+                        m @= R
+                else:
+                    p, y, r = vr['A']
+                    want = ref_rot(list(vl['V']), ref_from_angle(p % 360.0 % 360.0, y % 360.0 % 360.0, r % 360.0 % 360.0))
+                    ret = v.rotate(p, y, r, False)
+                    if ret is not keep:
+                        probs.append(('not-in-place', 'Vec.rotate() did not return the receiver'))
+                    ret = None
+                if ret is not None:
+                    probs.append(('return', f'{name} returned {ret!r}'))
+                e = max(abs(g - w) for g, w in zip(snapshot(keep), want))
+                if not e <= TOL * scale:
+                    probs.append(('value', f'after {name} the receiver differs from the pure form by {e:.3g}'))
+    except Exception as e:      # noqa: BLE001
+        return [('exception', f'{name} raised {type(e).__name__}: {e};{exc_where(e)}')]
+    if R is not None and [bits(x) for x in snapshot(R)] != [bits(x) for x in sR]:
+        probs.append(('operand-mutated', f'{name} changed its rotation argument from {sR} to {snapshot(R)}'))
+    return probs
+
+
+INPLACE_METHODS = [('Vec.localise', ['Angle', 'FrozenAngle', 'Matrix', 'FrozenMatrix', 'None']),
+                   ('Vec.transform', ['Angle', 'FrozenAngle', 'Matrix', 'FrozenMatrix']),
+                   ('Angle.transform', ['Angle', 'FrozenAngle', 'Matrix', 'FrozenMatrix']),
+                   ('Vec.rotate', ['Angle'])]
+
+
+def search_inplace(ck: Ck, found: dict) -> None:
+    reps = ck.budget(6, 25)
+    for iname, pname, sym in INPLACE_OPS:
+        for lc in INPLACE_RECEIVERS:
+            for rc in INPLACE_OPERANDS:
+                if iname != 'imatmul' and KIND.get(rc) in ('A', 'M'):
+                    continue        # number arithmetic with a rotation as operand is meaningless (Vec * Angle happens to "work")
+                for _ in range(reps):
+                    vl, vr = rand_vals_s(ck.rng), rand_vals_s(ck.rng)
+                    ck.count('inplace_operator_cases')
+                    probs = inplace_op_problems(iname, pname, lc, rc, vl, vr)
+                    if probs is None:
+                        ck.hist('inplace_operator', 'pair not supported by the pure operator')
+                        break
+                    ck.hist('inplace_operator', sym)
+                    ck.seen(('inplace', sym, lc, rc, vl['V'], vl['A'], vr['V'], vr['A'], vr['S']))
+                    for prob, desc in probs:
+                        key = f'inplace-{prob}:{lc}:{sym}'
+                        if key not in found:
+                            found[key] = (f'{lc} {sym} {rc}: {desc}', {'kind': 'inplace-op', 'iname': iname, 'pname': pname, 'l': lc,
+                                                                   'r': rc, 'left': vl, 'right': vr})
+    for name, rcs in INPLACE_METHODS:
+        for rc in rcs:
+            for _ in range(ck.budget(20, 60)):
+                vl, vr = rand_vals_s(ck.rng), rand_vals_s(ck.rng)
+                ck.count('inplace_method_cases')
+                ck.hist('inplace_method', name)
+                ck.seen(('inplace-method', name, rc, vl['V'], vl['A'], vr['A'], vr['M'], vr['V']))
+                for prob, desc in inplace_method_problems(name, rc, vl, vr):
+                    key = f'inplace-method-{prob}:{name}'
+                    if key not in found:
+                        found[key] = (f'{name} with a {rc}: {desc}', {'kind': 'inplace-method', 'name': name, 'r': rc, 'left': vl, 'right': vr})
+
+
+# =============================================================================================== conversions / entry points
+# Round 4.  The glue around the anchored functions: copies, freeze / thaw, constructors from another object, pickling, the row
+# accessors, the string entry point, to_matrix().  A rotation (angle, vector) that goes through any of them must come out with
+# the same bits - otherwise every identity above silently speaks about a different object than the caller holds.
+def conversion_problems(vals: dict) -> list[tuple[str, str]]:
+    import copy
+    import pickle
+    import srctools.math as sm
+    from srctools.math import Angle, FrozenAngle, FrozenMatrix, FrozenVec, Matrix, Vec
+    _CURRENT[0] = {'kind': 'conversion', 'vals': vals}
+    out: list[tuple[str, str]] = []
+
+    def same(name: str, got: Any, want: tuple, cls: type | None = None, not_obj: Any = None) -> None:
+        if not_obj is not None and got is not_obj:
+            out.append((name, f'{name}: returned the mutable receiver itself, not a copy'))
+            return
+        try:
+            g = snapshot(got)
+        except Exception as e:      # noqa: BLE001
+            out.append((name, f'{name}: result {got!r} is not a vector / angle / matrix ({e})'))
+            return
+        if [bits(x) for x in g] != [bits(x) for x in want]:
+            out.append((name, f'{name}: {g} instead of {want}'))
+        elif cls is not None and type(got) is not cls:
+            out.append((name, f'{name}: result is a {type(got).__name__}, expected {cls.__name__}'))
+
+    p, y, r = vals['M']
+    for mc, oc in ((Matrix, FrozenMatrix), (FrozenMatrix, Matrix)):
+        nm = mc.__name__
+        M = mc.from_angle(p, y, r)
+        w = snapshot(M)
+        mut = M if mc is Matrix else None
+        same(f'{nm}.copy', M.copy(), w, mc, mut)
+        same(f'{nm}(matrix)', mc(M), w, mc, mut)
+        same(f'{oc.__name__}({nm})', oc(M), w, oc)
+        same(f'copy.copy({nm})', copy.copy(M), w, mc, mut)
+        same(f'copy.deepcopy({nm})', copy.deepcopy(M), w, mc, mut)
+        same(f'pickle({nm})', pickle.loads(pickle.dumps(M)), w, mc)
+        same(f'{nm}.freeze/thaw', M.thaw() if mc is FrozenMatrix else M.freeze(), w, oc)
+        same(f'{nm}.forward/left/up', tuple(M.forward()) + tuple(M.left()) + tuple(M.up()), w)
+        same(f'{nm}.from_angle(Angle)', mc.from_angle(Angle(p, y, r)), snapshot(mc.from_angle(*snapshot(Angle(p, y, r)))), mc)
+        same(f'{nm}.from_angle(FrozenAngle)', mc.from_angle(FrozenAngle(p, y, r)), snapshot(mc.from_angle(*snapshot(Angle(p, y, r)))), mc)
+        same(f'to_matrix({nm})', sm.to_matrix(M), w)
+        a = Angle(p, y, r)
+        same(f'{nm}.from_angstr', mc.from_angstr(f'{a.pitch!r} {a.yaw!r} {a.roll!r}'), snapshot(mc.from_angle(a)), mc)
+        same(f'{nm}.to_angle', M.to_angle(), snapshot(M._to_angle(Angle.__new__(Angle))), Angle)
+    same('to_matrix(Angle)', sm.to_matrix(Angle(p, y, r)), snapshot(Matrix.from_angle(Angle(p, y, r))))
+    same('to_matrix(FrozenAngle)', sm.to_matrix(FrozenAngle(p, y, r)), snapshot(Matrix.from_angle(Angle(p, y, r))))
+    same('to_matrix(None)', sm.to_matrix(None), (1.0, 0.0, 0.0, 0.0, 1.0, 0.0, 0.0, 0.0, 1.0))
+    for ac, oc in ((Angle, FrozenAngle), (FrozenAngle, Angle)):
+        nm = ac.__name__
+        a = ac(*vals['A'])
+        w = snapshot(a)
+        same(f'{nm}.copy', a.copy(), w, ac, a if ac is Angle else None)
+        same(f'{oc.__name__}({nm})', oc(a), w, oc)
+        same(f'copy.copy({nm})', copy.copy(a), w, ac)
+        same(f'pickle({nm})', pickle.loads(pickle.dumps(a)), w, ac)
+        same(f'{nm}.freeze/thaw', a.thaw() if ac is FrozenAngle else a.freeze(), w, oc)
+        same(f'{nm}.as_tuple', tuple(a.as_tuple()), w)
+    for vc, oc in ((Vec, FrozenVec), (FrozenVec, Vec)):
+        nm = vc.__name__
+        v = vc(*vals['V'])
+        w = snapshot(v)
+        same(f'{nm}.copy', v.copy(), w, vc, v if vc is Vec else None)
+        same(f'{oc.__name__}({nm})', oc(v), w, oc)
+        same(f'copy.copy({nm})', copy.copy(v), w, vc)
+        same(f'pickle({nm})', pickle.loads(pickle.dumps(v)), w, vc)
+        same(f'{nm}.freeze/thaw', v.thaw() if vc is FrozenVec else v.freeze(), w, oc)
+    return out
+
+
+def search_conversions(ck: Ck, found: dict) -> None:
+    for _ in range(ck.budget(200, 1500)):
+        vals = rand_vals(ck.rng)
+        ck.count('conversion_cases')
+        ck.seen(('conv', vals['V'], vals['A'], vals['M']))
+        for name, desc in conversion_problems(vals):
+            key = f'conversion:{name}'
+            if key not in found:
+                found[key] = (desc, {'kind': 'conversion', 'vals': vals})
 
 
 # =============================================================================================== axioms
@@ -881,6 +1287,29 @@ def theorems_with_axioms(ck: Ck, props_file: str = 'Props/C04.v') -> None:
     ck.obligation('assumptions:only-classical-reals', used <= allowed,
                   'axioms used by Props/C04.v: ' + (', '.join(sorted(used)) or 'none') +
                   ('' if used <= allowed else ' -- UNEXPECTED: ' + ', '.join(sorted(used - allowed))))
+
+
+def corr_inplace_census(ck: Ck) -> None:
+    """The census of in-place methods read from the source (class bodies + expanded exec() templates) against the running
+    classes: per class the same set of in-place names in `vars(cls)`, and every name resolves through the MRO as predicted."""
+    import srctools.math as sm
+    A = trp.analyse()
+    bad: list[str] = []
+    for c, names in A['runtime'].items():
+        real = sorted(n for n in vars(getattr(sm, c)) if n in trp.INPLACE_NAMES and callable(vars(getattr(sm, c))[n]))
+        ck.count('inplace_census_classes')
+        if real != names:
+            bad.append(f'{c}: running class defines {real}, census read {names}')
+    for c in ('Vec', 'FrozenVec', 'Angle', 'FrozenAngle', 'Matrix', 'FrozenMatrix'):
+        has = sorted(n for n in trp.INPLACE_NAMES if getattr(getattr(sm, c), n, None) is not None)
+        pred = sorted({r['name'] for r in A['rows'] if c in r['reached_from']})
+        if has != pred:
+            bad.append(f'{c}: in-place methods reachable at run time {has}, census predicts {pred}')
+    ck.obligation('correspondence:inplace-census', not bad,
+                  f'in-place operator methods of the nine operand classes, source census vs vars() / getattr() of the running '
+                  f'classes: {"; ".join(bad) if bad else "equal (" + str(len(A["rows"])) + " methods)"}')
+    if bad:
+        ck.tie_broken.append('correspondence in-place census (source vs running classes)')
 
 
 def corr_rounding(ck: Ck) -> None:
@@ -961,6 +1390,71 @@ def corr_rounding(ck: Ck) -> None:
         ck.extra['rounding_disagreements'] = bad
 
 
+def corr_euler_float(ck: Ck, found: dict) -> None:
+    """The hypothesis of c04_euler_roundtrip_binary64, measured: for float angles (p, y, r) let M* be the EXACT rotation
+    from_angle(p, y, r) (60-digit decimal arithmetic) and a* its exact Euler angles, whose sin / cos are horiz M*, -ac, aa/h,
+    ab/h, bc/h, cc/h.  The implementation computes M_f = Matrix.from_angle(p, y, r), a_f = M_f.to_angle() and, inside
+    Matrix.from_angle(a_f), the six libm values sin / cos(radians(a_f)).  Their distance from the exact ones is the `d` of the
+    theorem (it contains the float error of from_angle, atan2, degrees, % 360, radians, sin, cos; amplified by 1/h near the
+    band).  Also compared directly: Matrix.from_angle(a_f) against M* (the conclusion)."""
+    import decimal
+    from srctools.math import Matrix
+    ins, _fts = trr.from_angle_trees()
+    n = ck.budget(300, 3000)
+    worst_d, worst_e, used = 0.0, 0.0, 0
+    worst_at: Any = None
+    with decimal.localcontext() as ctx:
+        ctx.prec = 60
+        for i in range(n):
+            rng = ck.rng
+            if i % 3 == 0:      # just outside the band: horizontal length 0.001 .. 0.1
+                h = 10.0 ** rng.uniform(-3, -1)
+                p = rng.choice([90.0, -90.0, 270.0]) + rng.choice([1, -1]) * math.degrees(math.asin(min(1.0, h))) * 1.0000001
+                y, r = rng.uniform(-360, 360), rng.uniform(-360, 360)
+            else:
+                (p, y, r), _ = gen_angle(rng)
+            (sp, cp), (sy, cy), (sr, cr) = hp_sin_cos(p), hp_sin_cos(y), hp_sin_cos(r)
+            M = [cp * cy, cp * sy, -sp, sr * sp * cy - cr * sy, sr * sp * sy + cr * cy, sr * cp,
+                 cr * sp * cy + sr * sy, cr * sp * sy - sr * cy, cr * cp]
+            hstar = (M[0] * M[0] + M[1] * M[1]).sqrt()
+            _CURRENT[0] = {'kind': 'euler-float', 'angle': (p, y, r)}
+            Mf = Matrix.from_angle(p, y, r)
+            if not (hstar > Decimal('0.0011') and math.hypot(Mf[0, 0], Mf[0, 1]) > 0.0011):
+                ck.hist('euler_float_class', 'inside or at the gimbal band (skipped)')
+                continue
+            used += 1
+            ck.count('euler_float_cases')
+            ck.hist('euler_float_class', 'horizontal length < 0.1' if hstar < Decimal('0.1') else 'general')
+            af = Mf.to_angle()
+            aenv = {'pitch': af.pitch, 'yaw': af.yaw, 'roll': af.roll}
+            target = {('cos', 'pitch'): hstar, ('sin', 'pitch'): -M[2], ('cos', 'yaw'): M[0] / hstar, ('sin', 'yaw'): M[1] / hstar,
+                      ('sin', 'roll'): M[5] / hstar, ('cos', 'roll'): M[8] / hstar}
+            for ir in ins:
+                if not (ir[0] == 'call' and ir[1] in ('sin', 'cos') and ir[2][0] == 'call' and ir[2][1] == 'radians'
+                        and ir[2][2][0] == 'var' and (ir[1], ir[2][2][1]) in target):
+                    ck.obligation('correspondence:euler-angle-inputs', False, f'unexpected input of from_angle: {ir!r}')
+                    return
+                dd = abs(float(Decimal(tr.py_eval(ir, aenv)) - target[(ir[1], ir[2][2][1])]))
+                if dd > worst_d:
+                    worst_d, worst_at = dd, (p, y, r)
+            back = snapshot(Matrix.from_angle(af))
+            e_here = max(abs(float(Decimal(b) - m)) for b, m in zip(back, M))
+            worst_e = max(worst_e, e_here)
+            if e_here > 2e-13 and 'euler-roundtrip-float' not in found:
+                found['euler-roundtrip-float'] = (
+                    f'Matrix.from_angle(M.to_angle()) for M = Matrix.from_angle({p}, {y}, {r}) (horizontal length {float(hstar):.3g} > '
+                    f'0.001) differs from the exact rotation by {e_here:.3g} (proved bound given accurate angles: 2e-13)',
+                    {'kind': 'euler-float', 'angle': (p, y, r)})
+            ck.seen(('euler-float', p, y, r))
+    ck.extra['euler_float_worst_input_error'] = worst_d
+    ck.extra['euler_float_worst_roundtrip_error'] = worst_e
+    ck.obligation('correspondence:euler-angle-inputs', used > 0 and worst_d <= 2e-14 and worst_e <= 2e-13,
+                  f'{used} rotations with horizontal length > 0.0011 (a third of them below 0.1): sin / cos of the float Euler angles '
+                  f'vs the exact ones of the exact rotation (60 digits): largest distance {worst_d:.3g} at {worst_at} (hypothesis d of '
+                  f'c04_euler_roundtrip_binary64, instantiated with 2e-14); Matrix.from_angle(M.to_angle()) vs the exact rotation: '
+                  f'largest entry error {worst_e:.3g} (the theorem gives 2e-13)')
+
+
 _PI50 = '3.14159265358979323846264338327950288419716939937510582097494'
 
 
@@ -994,7 +1488,10 @@ def run(ck: Ck) -> None:
                'correspondence: 14 input classes (rotations of the four angle classes, random, small integers with exact '
                'pivot ties, rank 2, rank 1, scaled signed permutations, diagonals around the 1e-5 threshold, magnitudes '
                '1e-150..1e150, signed zeros, one inf/nan entry, corpus); distinct by the bit patterns of the nine inputs; all '
-               'three outcomes (result / no-inverse / ZeroDivisionError) occur.')
+               'three outcomes (result / no-inverse / ZeroDivisionError) occur.  In-place forms: 7 in-place operators x 6 receiver '
+               'classes x 9 operand classes (pairs the pure operator rejects are skipped and counted), 4 in-place rotation '
+               'methods x rotation operand classes; conversions: ~45 entry points per random (vector, angle, rotation) triple; '
+               'float round trip: a third of the rotations with horizontal length in [0.0011, 0.1].')
     ck.assumptions += [
         'Arithmetic in the theorems is over the real numbers; IEEE rounding is outside the model (property: "up to rounding"). '
         'The numeric oracle bounds the rounding error by 1e-9*max(1,|v|) on the sampled inputs only.',
@@ -1007,6 +1504,14 @@ def run(ck: Ck) -> None:
         'Vec arithmetic used by inverse() (-=, *, /= generated by exec() templates, componentwise) is not translated; it is '
         'covered by the bit-exact correspondence of the whole method.',
     ]
+    ck.assumptions += [
+        'In-place protocol: a mutable receiver of an in-place operator must be the object returned (property: "in-place and frozen '
+        'variants included"; a rebound name with a stale receiver breaks `for a in angles: a @= m`).',
+        'c04_euler_roundtrip_binary64: the accuracy of atan2 / degrees / % 360 / radians / sin / cos in binary64 is one visible '
+        'hypothesis (distance of the six sin / cos values from those of the exact Euler angles), measured on sampled rotations only.',
+    ]
+    ck.trusted += ['translate/c04_inplace.py (in-place census: expansion of the exec() templates and path classification; its '
+                   'per-class method sets are compared with vars() of the running classes on every run)']
     ck.trusted += ['translate/c04_formulas.py symbolic executors (formulas: tied bit-for-bit to the implementation on every run; '
                    'dispatch: every table row compared with the implementation on every run)',
                    'Coq.Reals classical axioms (listed per theorem in axioms_per_theorem)',
@@ -1021,10 +1526,17 @@ def run(ck: Ck) -> None:
     ok_i = ck.translate('RotInverse_gen', tri.translate_inverse)
     ok_r = ok_f and ck.translate('RotReified_gen', tr.translate_reified)
     ok_rr = ok_f and ck.translate('RotRounded_gen', trr.translate_rounded)
+    ok_ip = ck.translate('RotInplace_gen', trp.translate_inplace)
+    ok_im = ok_f and ok_d and ck.translate('RotMethods_gen', trp.translate_methods)
+    ok_cp = ck.translate('RotCopies_gen', trp.translate_copies)
     A = tr.analyse() if (ok_f and ok_d) else None
     built = False
     # 1. models and generated objects (definitions only: these compile whatever the source computes)
-    models = ck.build(['Rot/RotGJ.vo', 'Rot/RotGJTotal.vo', 'Rot/RotGJFloat.vo', 'Rot/RotDispatch.vo', 'Rot/RotReify.vo', 'Rot/RotRound.vo']
+    models = ck.build(['Rot/RotGJ.vo', 'Rot/RotGJTotal.vo', 'Rot/RotGJFloat.vo', 'Rot/RotDispatch.vo', 'Rot/RotReify.vo', 'Rot/RotRound.vo',
+                       'Rot/RotInplace.vo', 'Rot/RotMethods.vo', 'Rot/RotCopies.vo']
+                      + (['Gen/RotCopies_gen.vo'] if ok_cp else [])
+                      + (['Gen/RotInplace_gen.vo'] if ok_ip else [])
+                      + (['Gen/RotMethods_gen.vo'] if ok_im else [])
                       + (['Gen/RotFormulas_gen.vo', 'Gen/RotDispatch_gen.vo'] if A is not None else [])
                       + (['Gen/RotReified_gen.vo'] if ok_r else [])
                       + (['Gen/RotRounded_gen.vo'] if ok_rr else [])
@@ -1043,6 +1555,9 @@ def run(ck: Ck) -> None:
         group(DISP_IMPORTS, {
             'dispatch_matmul_rows_ok': 'forallb (fun t => triple_ok t && handled t) (rows_of FMatmul dispatch_table)',
             'dispatch_imatmul_rows_ok': 'forallb (fun t => triple_ok t && handled t) (rows_of FImatmul dispatch_table)',
+            # the in-place protocol: a mutable receiver is returned itself (holding the product), a frozen one never is
+            'dispatch_inplace_on_mutable_receiver_stores_into_self': 'forallb inplace_ok (rows_mut true dispatch_table)',
+            'dispatch_inplace_on_frozen_receiver_returns_new_object': 'forallb inplace_ok (rows_mut false dispatch_table)',
             'dispatch_reflected_rows_ok': 'forallb (fun t => triple_ok t && handled t) (rows_of FRmatmul dispatch_table)',
             'dispatch_table_complete': 'covered dispatch_table',
             'dispatch_table_ok': 'table_ok dispatch_table',
@@ -1050,6 +1565,35 @@ def run(ck: Ck) -> None:
         evals.append(('dispatch_rows_rejected', 'failing dispatch_table'))
         ck.extra['dispatch_table_rows'] = len(A['rows'])
         ck.extra['mat_mul_alias_safe'] = A['F']['mat_mul_alias_safe']
+    if ok_ip and models:
+        # the census of ALL in-place operator methods (also the exec()-template ones): a mutable class's in-place method returns
+        # the receiver after storing into it on every path that returns a value; no frozen class has or inherits one
+        group(INPLACE_IMPORTS, {
+            'inplace_methods_return_the_receiver_after_storing_into_it': 'inplace_paths_return_self inplace_census',
+            'inplace_methods_update_the_receiver_on_some_path': 'inplace_methods_store inplace_census',
+            'inplace_methods_exist_on_mutable_classes_only': 'inplace_only_on_mutable inplace_census',
+            'inplace_census_ok': 'census_ok inplace_census',
+        })
+        ck.extra['inplace_census'] = [f'{r["cls"]}.{r["name"]} ({r["origin"]}): ' + ', '.join(
+            p['kind'] + (f'({p["stores"]})' if p['kind'] == 'PSelf' else '') + (f' [{p["why"]}]' if p['why'] else '') for p in r['paths'])
+            for r in trp.analyse()['rows']]
+    if ok_cp and models:
+        # copy / __deepcopy__ / freeze / thaw / _new_copy of the matrix classes: `return self` only for a frozen receiver's copy,
+        # otherwise a new object of the right class with the receiver's nine slots field for field (the translator fails closed
+        # on anything else)
+        group(COPIES_IMPORTS, {
+            'matrix_copies_are_new_objects_of_the_right_class': 'forallb crow_ok copy_table',
+            'matrix_copies_ok': 'copies_ok copy_table',
+        })
+    if ok_im and models:
+        # the in-place rotation METHODS, executed symbolically: the receiver ends up holding the pure operator form
+        group(METHOD_IMPORTS, {
+            'inplace_method_localise_is_rotate_then_translate': 'forallb mrow_ok (rows_of_meth MLocalise method_table)',
+            'inplace_method_vec_transform_is_vec_matmul_rotation': 'forallb mrow_ok (rows_of_meth MVecTransform method_table)',
+            'inplace_method_angle_transform_is_angle_matmul_rotation': 'forallb mrow_ok (rows_of_meth MAngTransform method_table)',
+            'inplace_method_rotate_is_vec_matmul_angle': 'forallb mrow_ok (rows_of_meth MRotate method_table)',
+            'inplace_methods_ok': 'methods_ok method_table',
+        })
     if ok_r and models:
         group(REIFY_IMPORTS, {
             'to_angle_guard_operator_is_gt': 'guard_operator_ok ta_guard_cfg',
@@ -1076,6 +1620,10 @@ def run(ck: Ck) -> None:
             'from_angle_arithmetic_rounding_error_below_1e-15': 'errs_within_in 1 0 (1 # 1000000000000000) from_angle_fe',
             'from_angle_error_below_3e-14_given_sin_cos_within_5e-15':
                 'errs_within_in 1 (5 # 1000000000000000) (3 # 100000000000000) from_angle_fe',
+            # Matrix -> Angle -> Matrix in binary64 outside the gimbal band (c04_euler_roundtrip_binary64; d measured by
+            # correspondence:euler-angle-inputs)
+            'euler_roundtrip_error_below_2e-13_given_sin_cos_within_2e-14':
+                'errs_within_in 1 (2 # 100000000000000) (2 # 10000000000000) from_angle_fe',
         })
     if ok_i and models:
         # gj_prog_ok: what inverse() returns when it returns; gj_total_ok (Rot/RotGJTotal.v, interval / determinant abstract
@@ -1108,36 +1656,60 @@ def run(ck: Ck) -> None:
     # 3. the proofs about the generated formulas
     if A is not None and models:
         core = ck.build(['Rot/RotAlgebra.vo', 'Rot/RotAliasProofs.vo', 'Rot/RotEulerProofs.vo', 'Rot/RotDispatchProofs.vo',
-                         'Rot/RotGJProofs.vo', 'Rot/RotGJTotalProofs.vo', 'Rot/RotGJExample.vo'] + (['Rot/RotReifyProofs.vo'] if ok_r else [])
-                        + (['Rot/RotRoundProofs.vo', 'Rot/RotRoundFlocq.vo', 'Rot/RotRoundTied.vo'] if ok_rr else []))
+                         'Rot/RotGJProofs.vo', 'Rot/RotGJTotalProofs.vo', 'Rot/RotGJExample.vo', 'Rot/RotMethodsProofs.vo'] + (['Rot/RotReifyProofs.vo'] if ok_r else [])
+                        + (['Rot/RotRoundProofs.vo', 'Rot/RotRoundFlocq.vo', 'Rot/RotRoundTied.vo', 'Rot/RotRoundEuler.vo'] if ok_rr else []))
         built = core and ck.build(['Props/C04.vo'])
         if built:
             theorems_with_axioms(ck)
-    # 4. correspondences
-    if A is not None:
-        corr_formulas(ck, A['F'])
-        corr_dispatch(ck, A['F'], A['rows'])
-    if ok_i and models:
-        corr_inverse(ck)
-    if ok_rr:
-        corr_rounding(ck)
+            if ok_i and ok_ip and ok_im:
+                # today's generated table / program / census meet the hypotheses of c04_property (one Example, kernel-checked)
+                ck.build(['Props/C04Today.vo'])
+    # 4. correspondences and 5. searches, each under `guarded` (exception / hang -> violation with the input in flight)
     found: dict[str, tuple[str, dict]] = {}
-    search_operands(ck, found)
-    search_identities(ck, found)
-    search_composed(ck, found)
+    if A is not None:
+        guarded(ck, found, 'correspondence-formulas', corr_formulas, ck, A['F'])
+        guarded(ck, found, 'correspondence-dispatch', corr_dispatch, ck, A['F'], A['rows'])
+        guarded(ck, found, 'correspondence-angle-operand', corr_angle_operand, ck)
+    if ok_i and models:
+        guarded(ck, found, 'correspondence-inverse', corr_inverse, ck)
+    if ok_ip:
+        guarded(ck, found, 'correspondence-inplace-census', corr_inplace_census, ck)
+    if ok_rr:
+        guarded(ck, found, 'correspondence-rounding', corr_rounding, ck)
+        guarded(ck, found, 'correspondence-euler-float', corr_euler_float, ck, found)
+    guarded(ck, found, 'search-operands', search_operands, ck, found)
+    guarded(ck, found, 'search-identities', search_identities, ck, found)
+    guarded(ck, found, 'search-composed', search_composed, ck, found)
+    guarded(ck, found, 'search-inplace', search_inplace, ck, found)
+    guarded(ck, found, 'search-conversions', search_conversions, ck, found)
     for key, (what, rp) in sorted(found.items()):
         ck.violation(key, what, rp)
     keys = set(found)
     # A rejected dispatch row / failed proof is explained when the search exhibits the corresponding concrete failure.
     if any(k.startswith(('left-operand-mutated', 'right-operand-mutated', 'result-not-fresh', 'value-mismatch', 'unsupported',
-                         'exception', 'result-kind')) for k in keys):
+                         'exception', 'result-kind', 'not-in-place')) for k in keys):
         ck.explain('instance:dispatch_')
     if any(k.startswith(TO_ANGLE_KEYS) for k in keys):
         ck.explain('instance:to_angle_')
+    if 'euler-roundtrip-float' in keys:
+        ck.explain('correspondence:euler-angle-inputs')
+    # a stage that was cut short is explained by its own hang: / exception: violation (which carries the input in flight)
+    for k in keys:
+        if k.startswith(('hang:', 'exception:')) and k.split(':', 1)[1] in STAGES:
+            ck.explain('stage-completed:' + k.split(':', 1)[1])
     if any(k.startswith('value-mismatch:Matrix:same-object') for k in keys):
         ck.explain('instance:mat_mul_alias_')
+    if any(k.startswith(('not-in-place', 'inplace-')) for k in keys):
+        ck.explain('instance:inplace_')
+        ck.explain('translate:RotInplace_gen')
+    if any(k.startswith('inplace-method-') for k in keys):
+        ck.explain('translate:RotMethods_gen')
+    if any(k.startswith('conversion:') for k in keys):
+        ck.explain('translate:RotCopies_gen')
+        ck.explain('instance:matrix_copies_')
     if any(k.startswith('inverse-') for k in keys):
         ck.explain('instance:inverse_')
+        ck.explain('correspondence:inverse')
         # the translator could not read inverse() (fail closed) AND the search exhibits a concrete wrong inverse
         ck.explain('translate:RotInverse_gen')
     # a changed _vec_rot / _mat_mul tree changes its error bound too: explained by the concrete wrong value
@@ -1145,7 +1717,14 @@ def run(ck: Ck) -> None:
                      ('from_angle', 'instance:from_angle_')):
         if any(k.startswith(FUNCTION_EXPLAINED_BY[fn]) for k in keys):
             ck.explain(pref)
-    explain_translate(ck, keys)
+    explain_translate(ck, keys, found)
+    if any(k.startswith('hang:') for k in keys):
+        # a loop the translators refuse to read (fail closed) and a concrete input on which the implementation does not return
+        ck.explain('translate:Rot')
+    # Props/C04Today.v is the conjunction of five instance obligations: it fails with them and is explained with them
+    if any(o['name'] in ('instance:dispatch_table_ok', 'instance:inverse_prog_ok', 'instance:inverse_total_on_rotations',
+                         'instance:inplace_census_ok', 'instance:inplace_methods_ok') and not o['ok'] and o.get('explained') for o in ck.obligations):
+        ck.explain('build:Props/C04Today.vo')
     explain_build(ck, keys)
 
 
@@ -1155,6 +1734,9 @@ TO_ANGLE_KEYS = ('euler-roundtrip', 'gimbal-bound', 'composed-roundtrip', 'assoc
 # as explained only when the search exhibits a concrete failing input of an identity that goes through that function.
 FUNCTION_EXPLAINED_BY = {
     '_to_angle': TO_ANGLE_KEYS,
+    # the dispatch executor could not follow an operator method: explained by a concrete wrong outcome of some operator form
+    'dispatch': ('value-mismatch', 'not-in-place', 'left-operand-mutated', 'right-operand-mutated', 'result-not-fresh',
+                 'unsupported', 'exception:', 'result-kind', 'inplace-'),
     '_mat_mul': ('assoc-matrix', 'value-mismatch:Matrix', 'convention-own-factors'),
     '_vec_rot': ('assoc-vec-matrix', 'value-mismatch:Vec', 'value-mismatch:FrozenVec', 'value-mismatch:tuple'),
     'transpose': ('transpose-formula', 'inverse-vs-transpose'),
@@ -1163,12 +1745,16 @@ FUNCTION_EXPLAINED_BY = {
 }
 
 
-def explain_translate(ck: Ck, keys: set) -> None:
+def explain_translate(ck: Ck, keys: set, found: dict | None = None) -> None:
     for o in ck.obligations:
         if o['ok'] or not o['name'].startswith('translate:Rot'):
             continue
         m = re.search(r'translator failed closed: ([A-Za-z_]+)[:>]', o['detail'])
         if m and m.group(1) in FUNCTION_EXPLAINED_BY and any(k.startswith(FUNCTION_EXPLAINED_BY[m.group(1)]) for k in keys):
+            o['explained'] = True
+        # the function the translator could not read raises / hangs on a concrete input (traceback names it)
+        if m and found and any(f' raised in {m.group(1)} (' in w for k, (w, _r) in found.items()
+                               if k.startswith('exception') or ':exception' in k or '-exception' in k):
             o['explained'] = True
 
 
@@ -1221,8 +1807,57 @@ def explain_build(ck: Ck, keys: set) -> None:
             o['explained'] = True
 
 
+def euler_float_error(p: float, y: float, r: float) -> float:
+    """Largest entry distance between Matrix.from_angle(Matrix.from_angle(p, y, r).to_angle()) and the exact rotation."""
+    import decimal
+    from srctools.math import Matrix
+    with decimal.localcontext() as ctx:
+        ctx.prec = 60
+        (sp, cp), (sy, cy), (sr, cr) = hp_sin_cos(p), hp_sin_cos(y), hp_sin_cos(r)
+        M = [cp * cy, cp * sy, -sp, sr * sp * cy - cr * sy, sr * sp * sy + cr * cy, sr * cp,
+             cr * sp * cy + sr * sy, cr * sp * sy - sr * cy, cr * cp]
+        back = snapshot(Matrix.from_angle(Matrix.from_angle(p, y, r).to_angle()))
+        return max(abs(float(Decimal(b) - m)) for b, m in zip(back, M))
+
+
 def replay(data: dict) -> int:
+    """Re-run the input of a violation.  An exception or a call that does not return within 60 s is the failure itself."""
+    import signal
+    old = signal.signal(signal.SIGALRM, _on_alarm)
+    signal.alarm(60)
+    try:
+        return _replay(data)
+    except StageTimeout:
+        print('the call into srctools.math did not return within 60 s')
+        return 1
+    except Exception as e:      # noqa: BLE001
+        import traceback
+        traceback.print_exc()
+        print(f'problem   : unexpected {type(e).__name__}: {e}')
+        return 1
+    finally:
+        signal.alarm(0)
+        signal.signal(signal.SIGALRM, old)
+
+
+def _replay(data: dict) -> int:
     r = data['replay']
+    if r.get('kind') == 'inverse':
+        out = run_inverse(list(r['matrix']))
+        print('inverse() of', r['matrix'], '->', out)
+        return 1 if out[0].startswith('other') else 0
+    if r.get('kind') == 'euler-float':
+        e = euler_float_error(*r['angle'])
+        print('Matrix.from_angle(M.to_angle()) vs the exact rotation for angle', r['angle'], ': error', e)
+        return 1 if e > 2e-13 else 0
+    if r.get('kind') == 'conversion':
+        probs = conversion_problems({k: tuple(v) for k, v in r['vals'].items()})
+        print('conversions of', r['vals'])
+        print('problems  :', probs or 'none')
+        return 1 if probs else 0
+    if r.get('kind') == 'stage':
+        print('no single input was in flight; re-run the check to reproduce:', r)
+        return 1
     if r.get('kind') == 'triple':
         vl = {k: tuple(v) for k, v in r['left'].items()}
         vr = {k: tuple(v) for k, v in r['right'].items()}
@@ -1238,6 +1873,18 @@ def replay(data: dict) -> int:
         print('from_angle', r['a'], '@ from_angle', r['b'], 'form', r['form'])
         print('problem   :', pr or 'none')
         return 1 if pr else 0
+    if r.get('kind') == 'inplace-op':
+        probs = inplace_op_problems(r['iname'], r['pname'], r['l'], r['r'], {k: (tuple(v) if isinstance(v, list) else v) for k, v in r['left'].items()},
+                                    {k: (tuple(v) if isinstance(v, list) else v) for k, v in r['right'].items()})
+        print('in-place operator', r['iname'], 'on', r['l'], 'and', r['r'], r['left'], r['right'])
+        print('problems  :', probs or 'none')
+        return 1 if probs else 0
+    if r.get('kind') == 'inplace-method':
+        probs = inplace_method_problems(r['name'], r['r'], {k: (tuple(v) if isinstance(v, list) else v) for k, v in r['left'].items()},
+                                        {k: (tuple(v) if isinstance(v, list) else v) for k, v in r['right'].items()})
+        print('in-place method', r['name'], 'with a', r['r'], r['left'], r['right'])
+        print('problems  :', probs or 'none')
+        return 1 if probs else 0
     if r.get('kind') == 'identity':
         probs = ident_problems(*r['angle'], tuple(r['vector']), tuple(r['second_angle']))
         print('angle', r['angle'], 'vector', r['vector'], 'second angle', r['second_angle'])
